@@ -62,7 +62,7 @@ impl JobCostModel for Curve {
     }
 
     fn least_wcet(&self, n: usize) -> Service {
-        if n > 0 {
+        if !self.wcet_of_n_jobs.is_empty() && n > 0 {
             let mut least = self.wcet_of_n_jobs[0];
             for i in 1..self.wcet_of_n_jobs.len().min(n) {
                 least = least.min(self.wcet_of_n_jobs[i] - self.wcet_of_n_jobs[i - 1])
